@@ -5,6 +5,7 @@ import PyGqlModel.DefaultResolver
 import PyGqlModel.ExecArgs
 import PyGqlModel.Spec.ExecSpec
 import PyGqlModel.Spec.ValidDoc
+import PyGqlModel.Spec.MergeSafe
 open PyGql PyGql.Exec
 
 namespace Driver.ExecOps
@@ -122,7 +123,8 @@ def handle? (j : J) : Option J :=
     let sj := responseToJson sp
     some (.obj [("model", mj), ("spec", sj), ("quirk_dup", .bool (mj.render != sj.render)),
                 ("validdoc", .bool (PyGql.Spec.validDocB s doc vars)), ("validdoc_why", .str (PyGql.Spec.validDocWhy s doc vars)),
-                ("key_consistent", .bool (PyGql.Spec.keyConsistentB doc)), ("ranked", .bool (PyGql.Spec.rankedB doc))])
+                ("key_consistent", .bool (PyGql.Spec.keyConsistentB doc)), ("ranked", .bool (PyGql.Spec.rankedB doc)),
+                ("merge_safe", .bool (PyGql.Spec.mergeSafeB s doc))])
   | "world" =>
     let s := Driver.schemaOfJson (j.getD "schema")
     let w := fnvWorld s (j.natD "seed") (j.natD "mode")
